@@ -211,6 +211,7 @@ pub fn gen_volume(rng: &mut Rng, p: &VolParams) -> VolumeSpec {
     // right after itself (equal in every field to its predecessor) must still be conserved
     let retransmit = rng.chance(1, 4);
     let shuffled_times = rng.chance(1, 2);
+    let zero_first_vcp = rng.chance(1, 10);
     for (elev, n) in runs {
         // a sweep starts at whatever azimuth the antenna is at: numbering runs through north
         // (…, 719, 720, 1, 2, …); an eighth of the runs carry arbitrary numbers in arbitrary order
@@ -240,6 +241,11 @@ pub fn gen_volume(rng: &mut Rng, p: &VolParams) -> VolumeSpec {
                         }
                     }
                     Block::Vol(v) => {
+                        // a pattern number of 0 is a number like any other ("no pattern" is the RDA
+                        // status message's convention, not this block's)
+                        if used_vcps.is_empty() && zero_first_vcp {
+                            v.vcp = 0;
+                        }
                         // later VOL blocks carry different VCP numbers
                         while used_vcps.contains(&v.vcp) {
                             v.vcp = v.vcp.wrapping_add(1);
